@@ -137,6 +137,16 @@ CHECKS = {
         design_ref="DESIGN.md section 8, C17",
         technique="differential runs of the real CLI under both flag values with the Lean reference cost function",
     ),
+    "C11": dict(
+        category="proof",
+        text=("Pipeline.replayBlock models optimize_asm_from_log; replay_sound (any log content either aborts or yields an equivalent "
+              "block, given a sound checker) and replay_roundtrip are proved. Tie: the real CLI is run with -log, the log replayed (the "
+              "file must be byte-identical), and edited logs replayed (substitution, deletion, duplication, permutation, foreign ids, raw "
+              "opcodes, truncation, dropped/swapped blocks): replay must fail or every changed block must be accepted by the Lean-proved "
+              "validator or survive concrete search."),
+        design_ref="DESIGN.md section 8, C11",
+        technique="Lean corollary of the pipeline model + real log replay with tampered logs judged by the proved validator",
+    ),
 }
 
 NOT_APPLICABLE = [
